@@ -445,6 +445,26 @@ pub fn walk(t: &Tlv<'_>, path: &str, errs: &mut Vec<String>, depth: usize) {
 						}
 					}
 				}
+				// AlgorithmIdentifier of RSASSA-PSS: the four parameters have DEFAULT values (RFC 4055 3.1),
+				// which DER wants omitted: [0] sha1, [1] mgf1SHA1, [2] saltLength 20, [3] trailerField 1
+				const PSS: &[u8] = &[0x2a, 0x86, 0x48, 0x86, 0xf7, 0x0d, 0x01, 0x01, 0x0a];
+				const SHA1: &[u8] = &[0x2b, 0x0e, 0x03, 0x02, 0x1a];
+				if t.is_univ(SEQUENCE) && kids.len() == 2 && kids[0].is_univ(OID) && kids[0].content == PSS && kids[1].is_univ(SEQUENCE) {
+					for p in parse_all(kids[1].content, true).unwrap_or_default() {
+						let inner = parse_all(p.content, true).unwrap_or_default();
+						let first_oid = |v: &[Tlv<'_>]| v.first().and_then(|s| parse_all(s.content, true).ok()).and_then(|x| x.first().map(|o| o.content.to_vec()));
+						let is_default = match (p.class, p.tag) {
+							(2, 0) => first_oid(&inner).as_deref() == Some(SHA1),
+							(2, 1) => inner.first().and_then(|s| parse_all(s.content, true).ok()).map_or(false, |x| x.len() == 2 && parse_all(x[1].content, true).ok().and_then(|y| y.first().map(|o| o.content == SHA1)).unwrap_or(false)),
+							(2, 2) => inner.first().map_or(false, |i| i.is_univ(INTEGER) && i.content == [20]),
+							(2, 3) => inner.first().map_or(false, |i| i.is_univ(INTEGER) && i.content == [1]),
+							_ => false,
+						};
+						if is_default {
+							errs.push(format!("{}: RSASSA-PSS parameter [{}] encodes its DEFAULT value", path, p.tag));
+						}
+					}
+				}
 				for (i, k) in kids.iter().enumerate() {
 					walk(k, &format!("{}/{}", path, i), errs, depth + 1);
 				}
@@ -473,6 +493,9 @@ mod tests {
 		assert!(!canon(&[0x31, 0x06, 0x02, 0x01, 0x02, 0x02, 0x01, 0x01]).is_empty()); // unsorted set
 		assert!(!canon(&[0x17, 0x0b, b'2', b'0', b'0', b'1', b'0', b'1', b'0', b'0', b'0', b'0', b'Z']).is_empty()); // no seconds
 		assert!(!canon(b"\x18\x1120200101000000.5Z").is_empty()); // fraction
+		// RSASSA-PSS AlgorithmIdentifier with saltLength [2] = 20 (the DEFAULT)
+		assert!(!canon(&[0x30, 0x12, 0x06, 0x09, 0x2a, 0x86, 0x48, 0x86, 0xf7, 0x0d, 0x01, 0x01, 0x0a, 0x30, 0x05, 0xa2, 0x03, 0x02, 0x01, 0x14]).is_empty());
+		assert!(canon(&[0x30, 0x12, 0x06, 0x09, 0x2a, 0x86, 0x48, 0x86, 0xf7, 0x0d, 0x01, 0x01, 0x0a, 0x30, 0x05, 0xa2, 0x03, 0x02, 0x01, 0x20]).is_empty());
 		assert!(canon(b"\x18\x0f20200101000000Z").is_empty());
 		assert!(!canon(&[0x30, 0x80, 0x00, 0x00]).is_empty()); // indefinite
 		assert!(!canon(&[0x05, 0x00, 0x00]).is_empty()); // trailing
